@@ -100,8 +100,10 @@ func (g *Group) Group(prefix string, middleware ...MiddlewareFunc) (sg *Group) {
 	m := make([]MiddlewareFunc, 0, len(g.middleware)+len(middleware))
 	m = append(m, g.middleware...)
 	m = append(m, middleware...)
-	sg = g.echo.Group(g.prefix+prefix, m...)
-	sg.host = g.host
+	// host must be set before Use is called, otherwise the catch-all routes that make group middleware run
+	// on unmatched paths are registered on the default router instead of the router of the group host
+	sg = &Group{host: g.host, prefix: g.prefix + prefix, echo: g.echo}
+	sg.Use(m...)
 	return
 }
 
